@@ -53,46 +53,32 @@ def simulate(num, depth):
 
 
 def validate(ck, tp, classes, runs):
+    """TLC trace validation (ClientTrace.tla): one linear pass; the spec prints the verdict of every bad run."""
     with open(tp) as f:
         lines = f.read().splitlines()
-    traces, cur = [], []
+    traces, cur, n = {}, [], 0
     for ln in lines:
         cur.append(ln)
         if '"e":"reset"' in ln:
-            traces.append(cur)
+            n += 1
+            traces[n] = cur
             cur = []
-    pending, validated, rounds = traces, 0, 0
-    while pending and rounds < 12:
-        rounds += 1
-        p = os.path.join(OUT, "client-val-%d.ndjson" % os.getpid())
-        with open(p, "w") as f:
-            f.write("\n".join("\n".join(t) for t in pending) + "\n")
-        r = tlc("client", "ClientTrace", "ClientTrace.cfg", workers=1, timeout=1500, env_extra={"TRACE": p}, javaopts="-Xss64m")
-        os.unlink(p)
-        if r.ok:
-            validated += len(pending)
-            break
-        if r.violation != "ContractHolds":
-            raise vlib.Inconclusive("client trace validation failed (%s):\n%s" % (r.violation, r.out[-3000:]))
-        m = None
-        for m in re.finditer(r"/\\ tr = (\d+)", r.out):
-            pass
-        bads = [b for b in re.findall(r'/\\ bad = "([^"]*)"', r.out) if b]
-        bad = bads[-1] if bads else "unknown"
-        k = int(m.group(1)) - 1 if m else 0
-        evs = [json.loads(x) for x in pending[k]]
-        scn = evs[0].get("run", 0)
-        name = runs.get(str(scn), "?")
+    r = tlc("client", "ClientTrace", "ClientTrace.cfg", workers=1, timeout=2400, env_extra={"TRACE": tp}, javaopts="-Xss64m", want_printed=True)
+    if not r.ok:
+        raise vlib.Inconclusive("client trace validation failed (%s):\n%s" % (r.violation, r.out[-3000:]))
+    for v in r.printed:
+        evs = [json.loads(x) for x in traces.get(v["tr"], [])]
+        name = runs.get(str(v.get("run", 0)), "?")
+        bad = v["bad"]
         faulted = any(e["e"] == "fault" for e in evs)
         mine = bad in classes and not (bad == "call-never-returned" and ((ck.pid == "C05") == faulted))
         if mine:
-            ck.violation("contract:" + bad, "recorded run %d (scenario %s) breaks the contract: %s" % (scn, name, bad),
+            ck.violation("contract:" + bad, "recorded run %s (scenario %s) breaks the contract: %s" % (v.get("run"), name, bad),
                          {"engine": "client", "scenario": name, "trace": evs[:300]})
         else:
             ck.notes.append("contract class %s seen in scenario %s (belongs to another property)" % (bad, name))
-        validated += k + 1
-        pending = pending[k + 1:]
-    return validated
+    ck.notes[:] = sorted(set(ck.notes))[:20]
+    return n
 
 
 def _run(pid, tier, classes, with_faults):
@@ -119,7 +105,7 @@ def _run(pid, tier, classes, with_faults):
         labels = [st[1]["act"] for st in ra.trace_json["counterexample"]["state"]]
         scs.insert(0, to_scenario("tlc-cex-unknown-tag", labels, True, 2))
     if not with_faults:
-        scs.append({"name": "tag-wrap-true-width", "steps": [], "wrap": 66000 if q else 140000})
+        scs.append({"name": "tag-wrap-true-width", "steps": [], "wrap": 132000 if q else 200000})
         # all permutations of reply order for 4 concurrent callers
         import itertools
         for k, perm in enumerate(itertools.permutations([1, 2, 3, 4])):
@@ -131,7 +117,7 @@ def _run(pid, tier, classes, with_faults):
     with open(sp, "w") as f:
         for s in scs:
             f.write(json.dumps(s) + "\n")
-    doc = harness(["client", "-scenarios", sp, "-trace", tp], timeout=1500, allow_crash=True)
+    doc = harness(["client", "-scenarios", sp, "-trace", tp] + (["-wrongtype"] if with_faults else []), timeout=1500, allow_crash=True)
     if not q and not with_faults:
         # "concurrent use is free of data races": the same schedules under the Go race detector
         tp2 = tp + ".race"
